@@ -34,6 +34,10 @@ CHECKS = {
    text="For 11-13 session scenarios (v3 with 1-3 concurrent runs, signals, non-fatal errors, a later Execute; v1; unusable hellos) every byte offset of the server->client transcript x {EOF, read error, 0xFF garbage} and every client write index x {fails once, fails persistently} is enumerated as an environment choice, each under every thread schedule within the delay bound; ReadSchema/Execute/Close must return, nothing may panic or stay blocked, and success may be reported only for a run whose work-done message arrived intact, with exactly its payload.",
    note="Trusted: scheduler shim, rewriter, the scripted peer built from the repository's own message types; 0xFF-garbage argument for 'not intact' (DESIGN §4.2); timers virtual.",
    technique="exhaustive fault-point enumeration (every byte offset x fault kind, every write index) combined with delay-bounded schedule exploration of the implementation", design="DESIGN.md §4.2, §7 C08"),
+ "C09": dict(level="exploration", engine="U",
+   text="Every spec of U_2 wrapped as a scope (all kinds, units, enums, defaults, presence rules, disabled properties, nested scopes, recursive references) is described with SelfSerialize, rebuilt with UnserializeScope directly, after a CBOR round trip and after a YAML round trip, and described again: the descriptions must be identical and the rebuilt schema must accept/reject every raw value of V(spec) like the original and (map-based schemas) unserialize it to the same value. Three whole plugin schemas with several outputs, signal handlers and emitters are rebuilt through UnserializeSchema and through a real hello message read by Client.ReadSchema, with the same comparison for every input, output and signal data scope.",
+   note="Trusted: value generators and structural equality of harness/ukit; descriptions are compared after CBOR normalisation; schemas with foreign-namespace references are excluded.",
+   technique="exhaustive enumeration of a bounded schema universe x three transports with a fixed-point and differential-behaviour oracle", design="DESIGN.md §7 C09"),
  "C12": dict(level="model_checking", engine="C+U",
    text="(a) schema/ is compiled with every range-over-map and reflect MapKeys routed through the map-order seam; every (schema of U_2 that ranges over a map, operation, argument) is executed under the sorted order and under every single (thorough: every pair of) deviating iteration order(s), all permutations each; accept/reject and the returned value must be identical. (b) the argument's deep snapshot is compared before/after every call. (c) explicit-state BFS over call histories (depth 3, thorough 4, ~9 calls per schema incl. erroring, default-filling and unit-parsing calls) on one instance: states are deep dumps incl. unexported caches, and every reached instance must equal a fresh one on self-description and a probe set.",
    note="Trusted: maporder rewrite, DeepDump/Snapshot, the probe set; recursive scopes are not used as schema arguments here (C15 reports their non-termination).",
